@@ -1,5 +1,5 @@
 /*@harness
-{"tier":"quick","mode":"bounded(at most 2 entries already queued in the target slot; all times, delays and deltas symbolic 64-bit)","tus":["lib/efuns/call_out.c"],"include_tu":true,"dfcc":false,
+{"tier":"thorough","mode":"bounded(at most 2 entries already queued in the target slot; all times, delays and deltas symbolic 64-bit)","tus":["lib/efuns/call_out.c"],"include_tu":true,"dfcc":false,
  "functions":["new_call_out","time_left"],
  "flags":["--bounds-check","--pointer-check"],"unwind":4,"timeout":900,
  "expect":["h_new_call_out.assertion","new_call_out.pointer_dereference"],
